@@ -207,6 +207,13 @@ def corpus():
     out.append({"name": "racing-change-broadcasts-setdata", "fixture": fixture(0, 0), "expect": expect_table(0, 0), "delay": "rtpconn.changeBroadcast:1:400", "pipelined": True, "steps": [
         ["ws", "A"], J("A", "op"), S, ["ws", "B"], J("B", "pr"), S, ["ws", "C"], J("C", "pr"), S,
         SD("B", {"hand": "up"}), ["sleep", 60], SD("B", {"hand": "down"}), ["sleep", 900], S, ["ws", "E"], J("E", "ob"), S, S]})
+    # delegation: every permission a token asks for must be held by its creator -- also when the list mixes held and foreign ones
+    MT = lambda c, ps, **kw: ["send", c, {"type": "groupaction", "kind": "maketoken", "value": dict({"group": "g", "permissions": ps, "expires": "2099-01-01T00:00:00Z"}, **kw)}]
+    out.append({"name": "token-delegation-mixed-permission-lists", "fixture": fixture(0, 1), "expect": expect_table(0, 1), "steps": [
+        ["ws", "A"], J("A", "op"), S, ["ws", "B"], J("B", "pr"), S,
+        MT("B", ["op"]), S, MT("B", ["message", "op"]), S, MT("B", ["op", "present"]), S, MT("B", ["present", "message", "record"]), S,
+        MT("B", ["present", "message"]), S, MT("B", []), S, MT("A", ["op", "present"]), S, MT("A", ["op", "admin"]), S,
+        ["send", "A", {"type": "useraction", "kind": "unop", "dest": "A"}], S, MT("A", ["message", "op"]), S, S]})
     # C10 seen through the real server: an autolock group, operators that are demoted at run time, the last one leaving
     ek = expect_table(0, 0, groups=("g", "h", "k"))
     ek["k"]["!autolock"] = []
